@@ -31,49 +31,69 @@ Qed.
 
 Section JumpProofs.
   Variable span : csvst -> nat.
+  Variable io_fails : csvst -> bool.
   (* encoding/csv: a Read with a usable delimiter consumes at least one physical line (readLine
      is called at least once and counts it), and no more than there are *)
   Hypothesis span_ok : forall s, 0 < lines_left s -> 1 <= span s <= lines_left s.
 
-  Lemma jump_to_terminates : forall fuel row s,
-    lines_left s < fuel -> jump_to span fuel true row s <> JumpOutOfFuel.
+  (* the repaired loop: for any delimiter, usable or not, and any failure pattern of the input *)
+  Lemma jump_to_terminates : forall fuel usable row s,
+    lines_left s < fuel -> jump_to span io_fails fuel usable row s <> JumpOutOfFuel.
   Proof.
-    induction fuel as [|k IH]; intros row s Hf; [lia|].
+    induction fuel as [|k IH]; intros usable row s Hf; [lia|].
     cbn [jump_to]. destruct (Nat.ltb (numline s) row); [|discriminate].
-    unfold csv_read. cbn [negb].
+    unfold csv_read. destruct usable; cbn [negb]; [|discriminate].
+    destruct (io_fails s); [discriminate|].
     destruct (Nat.eqb (lines_left s) 0) eqn:E0; [discriminate|].
     apply Nat.eqb_neq in E0. pose proof (span_ok s ltac:(lia)) as Hs.
     apply IH. cbn [lines_left]. lia.
   Qed.
 
-  (* with an unusable delimiter the line counter never moves: out of fuel for every fuel *)
-  Lemma jump_to_spins : forall fuel s row, numline s < row ->
-    jump_to span fuel false row s = JumpOutOfFuel.
+  (* old loop, unusable delimiter: the line counter never moves: out of fuel for every fuel *)
+  Lemma jump_to_old_spins : forall fuel s row, numline s < row ->
+    jump_to_old span io_fails fuel false row s = JumpOutOfFuel.
   Proof.
     induction fuel as [|k IH]; intros s row Hlt; [reflexivity|].
-    cbn [jump_to]. assert (Nat.ltb (numline s) row = true) as -> by (apply Nat.ltb_lt; exact Hlt).
+    cbn [jump_to_old]. assert (Nat.ltb (numline s) row = true) as -> by (apply Nat.ltb_lt; exact Hlt).
     unfold csv_read. cbn [negb]. apply IH. exact Hlt.
   Qed.
 End JumpProofs.
 
-Theorem csv_delim_progress_lemma :
-  forall (d : bytes) (fmt : N), csv_accepts_delimiter fmt d = true ->
-  stdcsv_delim_usable (fst (decode_rune d)) = true /\
-  forall span, (forall s, 0 < lines_left s -> 1 <= span s <= lines_left s) ->
-  forall row s, jump_to span (lines_left s + 1) (stdcsv_delim_usable (fst (decode_rune d))) row s <> JumpOutOfFuel.
+(* old loop, usable delimiter, input failing persistently: one iteration per row to skip -- the
+   number of iterations is the schema's row index, not bounded by the input *)
+Lemma jump_to_old_fault_spins span : forall fuel s row, numline s + fuel <= row ->
+  jump_to_old span (fun _ => true) fuel true row s = JumpOutOfFuel.
 Proof.
-  intros d fmt H.
-  assert (Hu : stdcsv_delim_usable (fst (decode_rune d)) = true).
-  { unfold csv_accepts_delimiter in H. destruct (N.eqb fmt 0);
-      apply andb_true_iff in H as [_ H]; [apply csv_check_usable|apply csv2_check_usable]; exact H. }
-  split; [exact Hu|]. intros span Hs row s. rewrite Hu. apply jump_to_terminates; [exact Hs|lia].
+  induction fuel as [|k IH]; intros s row Hlt; [reflexivity|].
+  cbn [jump_to_old]. assert (Nat.ltb (numline s) row = true) as -> by (apply Nat.ltb_lt; lia).
+  unfold csv_read. cbn [negb]. apply IH. cbn [numline]. lia.
 Qed.
 
-(* The pre-fix validation accepted every single-rune delimiter; a double quote makes the first Read spin. *)
-Lemma csv_delim_hang_old_refuted_lemma :
-  exists r : N, stdcsv_delim_usable r = false /\
-    forall span fuel, jump_to span fuel (stdcsv_delim_usable r) 1 (mkCsv 0 3) = JumpOutOfFuel.
+Theorem csv_delim_progress_lemma :
+  forall (d : bytes) (fmt : N), csv_accepts_delimiter fmt d = true ->
+  stdcsv_delim_usable (fst (decode_rune d)) = true.
 Proof.
-  exists 34%N. split; [reflexivity|]. intros span fuel.
-  change (stdcsv_delim_usable 34) with false. apply jump_to_spins. simpl. lia.
+  intros d fmt H. unfold csv_accepts_delimiter in H. destruct (N.eqb fmt 0);
+    apply andb_true_iff in H as [_ H]; [apply csv_check_usable|apply csv2_check_usable]; exact H.
+Qed.
+
+Theorem csv_jump_terminates_lemma :
+  forall span io_fails, (forall s, 0 < lines_left s -> 1 <= span s <= lines_left s) ->
+  forall usable row s, jump_to span io_fails (lines_left s + 1) usable row s <> JumpOutOfFuel.
+Proof. intros span io_fails Hs usable row s. apply jump_to_terminates; [exact Hs|lia]. Qed.
+
+(* The pre-fix validation accepted every single-rune delimiter; a double quote made the first Read
+   of the pre-fix loop spin (F15).  With a usable delimiter and a persistently failing input the
+   pre-fix loop needs as many iterations as the row index says (N10). *)
+Lemma csv_delim_hang_old_refuted_lemma :
+  (exists r : N, stdcsv_delim_usable r = false /\
+    forall span io_fails fuel, jump_to_old span io_fails fuel (stdcsv_delim_usable r) 1 (mkCsv 0 3) = JumpOutOfFuel)
+  /\ (forall span fuel row, fuel <= row -> jump_to_old span (fun _ => true) fuel true row (mkCsv 0 3) = JumpOutOfFuel)
+  /\ jump_to (fun _ => 1) (fun _ => true) 4 true 4000 (mkCsv 0 3) = JumpFailed
+  /\ jump_to (fun _ => 1) (fun _ => false) 4 false 2 (mkCsv 0 3) = JumpFailed.
+Proof.
+  split; [|split; [|split; reflexivity]].
+  - exists 34%N. split; [reflexivity|]. intros span io_fails fuel.
+    change (stdcsv_delim_usable 34) with false. apply jump_to_old_spins. simpl. lia.
+  - intros span fuel row H. apply jump_to_old_fault_spins. simpl. lia.
 Qed.
